@@ -93,6 +93,8 @@ class C27(Prop):
         'the connection in _read_bytes; rollback() would then raise InterfaceError and gear would surface that instead of retrying -- see the '
         'probe recorded in the evidence under aiomysql_closed_connection_probe)',
         'a connection released with an open transaction is closed by the pool and rolled back by the server (aiomysql behaviour)',
+        'the gear.database logger is enabled at DEBUG and WARNING (a third of the cases each), INFO (a sixth) or silenced (a sixth) with a handler that formats and '
+        'discards every record; root-logger configuration of a deployment (JSON formatter) is not reproduced',
         'faults are injected at: taking a connection, START TRANSACTION, every body statement, COMMIT -- not at the ROLLBACK the client issues after a failure',
     ]
 
@@ -154,7 +156,17 @@ end HailVerif.Generated.SqlTimer
         self.fakepool = fakepool
         self.MiniDB = MiniDB
         self.err = pymysql.err
-        logging.getLogger('gear.database').setLevel(logging.CRITICAL + 1)
+        self.records = 0
+        prop = self
+
+        class Sink(logging.Handler):
+            """swallows the service's log output after rendering it the way any real handler would"""
+
+            def emit(self, record):
+                prop.records += 1
+                self.format(record)
+        self.sink = Sink()
+        self.sink.setFormatter(logging.Formatter('%(asctime)s %(levelname)s %(name)s %(filename)s:%(lineno)s %(message)s'))
         self._probe = None
 
     def make_exc(self, name):
@@ -202,7 +214,14 @@ end HailVerif.Generated.SqlTimer
     MANY_SIZES = [1, 2, 999, 1000, 1001, 2500]
     MANY_ERRS = ['op:1213', 'op:2013', 'integ:1062', 'op:1054']
 
+    LOGS = ['debug', 'warning', 'info', 'debug', 'warning', 'off']
+
     def exhaustive(self):
+        for i, c in enumerate(self.exhaustive1()):
+            # the logger configuration cycles through the cases (co-prime with the lengths of the error lists)
+            yield {**c, 'log': self.LOGS[(i + i // 21 + i // 5) % len(self.LOGS)]}
+
+    def exhaustive1(self):
         for fx in self.FIXED:
             n = len(fx['body'])
             for idx in range(0, n + N_PRE + 2):
@@ -269,7 +288,7 @@ end HailVerif.Generated.SqlTimer
                 # half of the faults aim at a body statement (where the instrumented path lives), the rest anywhere incl. one past COMMIT
                 idx = rng.randint(N_PRE, n + N_PRE - 1) if n and rng.random() < 0.5 else rng.randint(0, n + N_PRE + 1)
                 scripts.append([idx, err])
-        c = {'init': init, 'body': body, 'scripts': scripts}
+        c = {'init': init, 'body': body, 'scripts': scripts, 'log': rng.choice(self.LOGS)}
         if db_mode:
             c['mode'] = 'db'
         return c
@@ -296,7 +315,27 @@ end HailVerif.Generated.SqlTimer
         return [f'{init} | {body} | {scripts}']
 
     # -- implementation ------------------------------------------------------------------------------
+    LOG_LEVELS = {'debug': logging.DEBUG, 'info': logging.INFO, 'warning': logging.WARNING, 'off': logging.CRITICAL + 1}
+
     def _run(self, c, break_connection=False):
+        """The gear.database logger is ENABLED as a deployment has it (case field 'log': 'debug' (default) / 'info' (what the services
+        configure) / 'warning' (Python's default) / 'off'), with a handler that renders and discards the records: what the retry
+        wrapper does while logging is part of the code under test."""
+        lg = logging.getLogger('gear.database')
+        saved_log = (lg.level, lg.propagate, list(lg.handlers), logging.root.manager.disable)
+        lg.setLevel(self.LOG_LEVELS[c.get('log', 'debug')])
+        lg.propagate = False
+        lg.handlers = [self.sink]
+        logging.disable(logging.NOTSET)
+        try:
+            return self._run1(c, break_connection)
+        finally:
+            lg.setLevel(saved_log[0])
+            lg.propagate = saved_log[1]
+            lg.handlers = saved_log[2]
+            logging.disable(saved_log[3])
+
+    def _run1(self, c, break_connection=False):
         gd = self.gd
         fakepool = self.fakepool
         db = self.MiniDB(rng=random.Random(0), clock=lambda: 0.0)
@@ -504,6 +543,7 @@ end HailVerif.Generated.SqlTimer
                 tags.append('err=' + s[1])
         n = len(c['body'])
         tags.append('mode=' + c.get('mode', 'tx'))
+        tags.append('gear.database-logger=' + c.get('log', 'debug'))
         for s in c['scripts']:
             if s is not None and N_PRE <= s[0] < n + N_PRE:
                 st = c['body'][s[0] - N_PRE]
@@ -547,7 +587,8 @@ end HailVerif.Generated.SqlTimer
                     f"Not part of the verdict (the library is not available to confirm).")
         except Exception as e:   # noqa: BLE001
             note = f'probe failed: {type(e).__name__}: {e}'
-        return {'aiomysql_closed_connection_probe': note, 'error_list': ERRS, 'transient': sorted(TRANSIENT)}
+        return {'aiomysql_closed_connection_probe': note, 'error_list': ERRS, 'transient': sorted(TRANSIENT),
+                'gear_database_log_records_rendered': self.records}
 
 
 PROP = C27()
